@@ -274,22 +274,29 @@ theorem spike_depth_eq (fe : Option Feats) (ys : List Rat) (peaks st sc : List N
    Lemmas.exportSpikeDepths_length_fallback fe ys peaks st sc ((Lemmas.getDepths_none_iff fe ys st).2 hno)⟩
 
 set_option linter.unusedVariables false in
-/-- "spike depths are feature-weighted channel depths": with a feature row for every spike, the exported depth of
-spike `i` is `Σ y_c · w_c / Σ w_c` over the channels `c` listed for the spike's template, `w = max(feature, 0)²` on the
-first component (NaN when no weight is positive) — the composition of the export with C09 `depths_eq`.  `hst`, `hw`,
-`hcols`: the real domain (the spike's template has a row of feature channels as wide as the spike's feature row, all of
-them channels; `IndexError` / broadcast `ValueError` otherwise), so the weighted sum reads no default and truncates
-nothing. -/
-theorem spike_depth_features_eq (f : Feats) (ys : List Rat) (peaks st sc : List Nat)
-    (hl : f.feat0.length = st.length) (i : Nat) (hi : i < st.length) (hst : st.getD i 0 < f.cols.length)
-    (hw : (f.feat0.getD i []).length = (f.cols.getD (st.getD i 0) []).length)
-    (hcols : ∀ c ∈ f.cols.getD (st.getD i 0) [], c < ys.length) :
+/-- "spike depths are feature-weighted channel depths", as explicit finite sums: with a feature row for every spike,
+`nloc` local channels per spike / template, the exported depth of spike `i` is
+`Σ_{k<nloc} y_k · w_k / Σ_{k<nloc} w_k` with `w_k = max(features[i, k, 0], 0)²` and `y_k` the depth (y) of channel
+`cols[spike_templates[i], k]` — NaN when no weight is positive; one entry per spike (composition of the export with
+C09 `depth_direct`).  Hypotheses = the domain of the BATCH gathers of `get_depths` (model.py:1129-1134), for EVERY
+spike, not only spike `i` (one spike whose template has no feature-channel row raises `IndexError` for the whole batch:
+features `[[1,1],[1,1]]`, `cols = [[0,1]]`, `spike_templates = [0, 4]` — nothing is returned, while the model's `getD`
+gives `[some 15, some 0]`): `hf` the feature array is `(n_spikes, nloc)`, `hst` every spike's template has a row of
+feature channels, `hc` that row has `nloc` entries (broadcast `ValueError` otherwise), `hb` all of them are channels.
+Under them no read on the right is a default and no sum is truncated.  The proof needs them at `i` only. -/
+theorem spike_depth_features_eq (f : Feats) (ys : List Rat) (peaks st sc : List Nat) (nloc : Nat)
+    (hl : f.feat0.length = st.length)
+    (hf : ∀ i, i < st.length → (f.feat0.getD i []).length = nloc)
+    (hst : ∀ i, i < st.length → st.getD i 0 < f.cols.length)
+    (hc : ∀ i, i < st.length → (f.cols.getD (st.getD i 0) []).length = nloc)
+    (hb : ∀ i, i < st.length → ∀ c ∈ f.cols.getD (st.getD i 0) [], c < ys.length)
+    (i : Nat) (hi : i < st.length) :
     (exportSpikeDepths (some f) ys peaks st sc).getD i none =
-      (let w := (f.feat0.getD i []).map fun x => (max x 0) * (max x 0)
-       let y := (f.cols.getD (st.getD i 0) []).map fun c => ys.getD c 0
-       if w.sum = 0 then none else some (dot y w / w.sum)) ∧
+      (let w := fun k => max ((f.feat0.getD i []).getD k 0) 0 * max ((f.feat0.getD i []).getD k 0) 0
+       let y := fun k => ys.getD ((f.cols.getD (st.getD i 0) []).getD k 0) 0
+       if sumTo nloc w = 0 then none else some (sumTo nloc (fun k => y k * w k) / sumTo nloc w)) ∧
     (exportSpikeDepths (some f) ys peaks st sc).length = st.length :=
-  Lemmas.spike_depth_features_eq f ys peaks st sc hl i hi
+  Lemmas.spike_depth_features_eq f ys peaks st sc nloc hl hf hst hc hb i hi
 
 -- `hr`: the domain (a sampling rate); the equation does not need it
 set_option linter.unusedVariables false in
@@ -402,9 +409,10 @@ example : (exportSpikeDepths (some ⟨[[1, 2], [0, 1]], [[0, 1], [0, 1], [0, 1]]
 example : exportSpikeDepths (some ⟨[[1, 1], [-1, 1], [-1, 0]], [[0, 1], [0, 1], [1, 2]]⟩) [10, 20, 40] [2, 0, 1] [0, 2, 1]
     [0, 2, 1] = [some 15, some 40, none] := by decide +kernel
 example : (exportSpikeDepths (some ⟨[[1, 1], [-1, 1], [-1, 0]], [[0, 1], [0, 1], [1, 2]]⟩) [10, 20, 40] [2, 0, 1] [0, 2, 1]
-    [0, 2, 1]).length = 3 :=
-  (spike_depth_features_eq ⟨[[1, 1], [-1, 1], [-1, 0]], [[0, 1], [0, 1], [1, 2]]⟩ [10, 20, 40] [2, 0, 1] [0, 2, 1]
-    [0, 2, 1] (by decide) 0 (by decide) (by decide) (by decide) (by decide)).2
+    [0, 2, 1]).getD 1 none = some 40 := by
+  rw [(spike_depth_features_eq ⟨[[1, 1], [-1, 1], [-1, 0]], [[0, 1], [0, 1], [1, 2]]⟩ [10, 20, 40] [2, 0, 1] [0, 2, 1]
+    [0, 2, 1] 2 (by decide) (by decide) (by decide) (by decide) (by decide) 1 (by decide)).1]
+  decide +kernel
 -- curated (ids 0..2, id 1 without spikes): NaN; nothing curated (template 2 without spikes): the template's own duration
 example : exportDurations [[[1, 0, 4], [-1, 2, 0], [3, 1, 2]], [[0, 0, 0], [0, 0, 0], [0, 0, 0]],
     [[0, 0, 1], [0, 5, 0], [0, -1, 0]]] 30000 [0, 0, 1] [0, 2, 2] = [some (1/30), none, some (-1/30)] := by
